@@ -112,7 +112,7 @@ def run_impl(ir_module, module, fname, inputs):
         for n, v in gl2.items(): vm.SetGlobal(n, v)
         args2 = copy.deepcopy(args)
         kw = {n: v for (n, t), v in zip(f.params, args2)}
-        r = implrun.invoke(vm, fname, kw)
+        r = implrun.invoke(vm, fname, kw, limit=3)
         # by-value promise at the host boundary: vector/matrix argument objects are never modified
         for (n, t), before, after in zip(f.params, args, args2):
             if isinstance(t, (lang.Vec, lang.Mat)) and before != after:
@@ -276,7 +276,7 @@ def eval_history(module, nvms, ops, want=("ref", "model", "opt")):
             else:
                 f = module.find(o[2])
                 kw = {n: copy.deepcopy(v) for (n, t), v in zip(f.params, o[3])}
-                r = implrun.invoke(vms[o[1]], o[2], kw)
+                r = implrun.invoke(vms[o[1]], o[2], kw, limit=3)
                 out.append(('ok', canon_ret(o[2], r[1])) if r[0] == 'ok' else (r[0], r[1]))
         obs[tag] = out
     # --- reference state machine (Python reading of the source semantics), one store per VM
